@@ -149,7 +149,10 @@ def _tlc_cmd(module, cfg, workers, extra=(), heap="4g", deque=False):
     props = ["-XX:+UseParallelGC", "-Xmx" + heap, "-Xss64m"]
     if deque:
         props.append("-Dtlc2.tool.queue.IStateQueue=StateDeque")
-    return ["java"] + props + ["-cp", TLC_JAR, "tlc2.TLC", "-noGenerateSpecTE", "-workers", str(workers),
+    # -checkpoint 0: no checkpoints (they are never resumed; and TLC's checkpoint code refuses behaviours of 65536 or more
+    # states, which a trace file with more records than that is - found when a C14 thorough shard ran past the first
+    # 30-minute checkpoint)
+    return ["java"] + props + ["-cp", TLC_JAR, "tlc2.TLC", "-noGenerateSpecTE", "-checkpoint", "0", "-workers", str(workers),
                                "-config", cfg] + list(extra) + [module]
 
 
